@@ -301,9 +301,20 @@ def load(path):
         return torch.load(path)
 
 
-def save(path, obj):
+def save(path, obj, link=False):
+    """link=True: every third file (by its position in the call order) is stored elsewhere and linked in by an absolute
+    symbolic link - a corpus assembled with `ln -s` / `subset-torch-spect-data-dir --symlink`."""
     import torch
 
+    if link:
+        save.count = getattr(save, "count", 0) + 1
+        if save.count % 3 == 1:
+            store = os.path.join(os.path.dirname(os.path.dirname(os.path.abspath(path))), ".linked-store")
+            os.makedirs(store, exist_ok=True)
+            real = os.path.join(store, "%06d.bin" % save.count)
+            torch.save(obj, real)
+            os.symlink(real, path)
+            return
     torch.save(obj, path)
 
 
